@@ -114,10 +114,23 @@ static void m_copy(int a, int b)
 	for (int i = 0; i < A->R; i++) memcpy(B->M[i], A->M[i], (size_t)A->C);
 	g_ops++;
 }
+/* index arrays for copyrows / copycols: uniform random or near-regular with a few entries exchanged or repeated */
+static void index_array(rng_t *r, UINT32 *idx, int n, int src)
+{
+	unsigned mode = rng_below(r, 5);
+	if (mode == 0) { for (int x = 0; x < n; x++) idx[x] = rng_below(r, (uint32_t)src); return; }
+	int shift = (int)rng_below(r, (uint32_t)src);
+	for (int x = 0; x < n; x++) idx[x] = (UINT32)((mode == 2 ? src - 1 - (x % src) : (x + shift) % src));
+	int nswap = mode <= 2 ? 0 : 1 + (int)rng_below(r, 3);
+	for (int q = 0; q < nswap && n > 1; q++) {
+		int a = (int)rng_below(r, (uint32_t)n), b = (int)rng_below(r, (uint32_t)n);
+		if (mode == 4) idx[a] = idx[b]; else { UINT32 t = idx[a]; idx[a] = idx[b]; idx[b] = t; }
+	}
+}
 static void m_copyrows(int a, int b, rng_t *r, int opt)
 {	/* needs cols(b) >= cols(a); opt variant needs an empty destination */
 	smat_t *A = &g_m[a], *B = &g_m[b]; UINT32 rows[MAXD];
-	for (int i = 0; i < B->R; i++) rows[i] = rng_below(r, (uint32_t)A->R);
+	index_array(r, rows, B->R, A->R);
 	if (opt) { for (int i = 1; i < B->R; i++) if (rows[i] < rows[i - 1]) { } }
 	g_lastop = opt ? "copyrows_opt" : "copyrows";
 	LIB_ENTER(); if (opt) of_mod2sparse_copyrows_opt(A->m, B->m, rows, NULL); else of_mod2sparse_copyrows(A->m, B->m, rows); LIB_LEAVE();
@@ -128,7 +141,7 @@ static void m_copyrows(int a, int b, rng_t *r, int opt)
 static void m_copycols(int a, int b, rng_t *r, int opt)
 {	/* needs rows(b) >= rows(a) */
 	smat_t *A = &g_m[a], *B = &g_m[b]; UINT32 cols[MAXD];
-	for (int j = 0; j < B->C; j++) cols[j] = rng_below(r, (uint32_t)A->C);
+	index_array(r, cols, B->C, A->C);
 	g_lastop = opt ? "copycols_opt" : "copycols";
 	LIB_ENTER(); if (opt) of_mod2sparse_copycols_opt(A->m, B->m, cols); else of_mod2sparse_copycols(A->m, B->m, cols); LIB_LEAVE();
 	memset(B->M, 0, sizeof B->M);
